@@ -1249,7 +1249,7 @@ func (fc *FnCtx) specialCall(callee *ssa.Function, args []Val, pos token.Pos, re
 		fc.noteTrusted(name + " returns a fresh non-nil error")
 		r := fc.freshValWF("err", resT)
 		ref := fc.allocRef()
-		fc.cur.assume(and(not(eq(r.L[0], bvLit(0, 16))), app("bvuge", r.L[0], bvLit(foreignTagBase, 16)), eq(r.L[1], ref)))
+		fc.cur.assume(and(not(eq(r.L[0], bvLit(0, 16))), app("bvuge", r.L[0], bvLit(foreignTagBase, 16)), app("bvult", r.L[0], bvLit(foreignTagBase+16, 16)), eq(r.L[1], ref)))
 		fc.declareFunOnce("unw_tag", "("+SortTag+" (_ BitVec 64)) "+SortTag)
 		fc.declareFunOnce("unw_pay", "("+SortTag+" (_ BitVec 64)) (_ BitVec 64)")
 		if name == "fmt.Errorf" && fc.errorfWraps(r, args) {
